@@ -131,10 +131,16 @@ where
     pub(crate) fn process(&self) -> Vec<A::Effect> {
         self.executor.run_all();
 
-        while let Some(capability_event) = self.capability_events.receive() {
+        loop {
             #[cfg(crux_verif)]
-            crate::verif::point("core.process.received");
+            crate::verif::point("core.process.before_lock");
+            // Take the model lock *before* taking the next event off the queue. When several
+            // threads call into the core at once, an event received first could otherwise be
+            // applied after one received later, inverting the order in which a task emitted them.
             let mut model = self.model.write().expect("Model RwLock was poisoned.");
+            let Some(capability_event) = self.capability_events.receive() else {
+                break;
+            };
             let command = self
                 .app
                 .update(capability_event, &mut model, &self.capabilities);
